@@ -197,6 +197,20 @@ PROPS.update({
  },
 })
 
+
+PROPS.update({
+ "C03": {
+  "level": "exploration", "design_ref": "DESIGN.md §5 P-C03",
+  "technique": "deterministic simulation of full approve sessions against an executable PAN-OS XML-API node (generic XML candidate tree, xpath get/set/edit/delete/move, keygen, HA, partial commit job PEND*->OK); final-state refinement check of the candidate rulebase against the target with all objects expanded by content, committed == candidate, second real compare empty",
+  "level_text": "Seeded search over pairs of vsys configurations (rule insert/delete/reorder, groups renamed/copied/split, member edits on both sides of the incremental/replace threshold, same-name-different-value objects, unknown extra XML, default attributes printed by the device, several vsys, foreign vsys, shared objects, backup address). Every request of the emitted script is executed on the candidate tree.",
+  "level_note": "Trusts the PAN-OS node (set merges, edit replaces, move before, referential checks per request).",
+  "rule": "case = (device config, target); non-trivial = session with >= 1 change request; distinct = hash of texts",
+  "quick": B(4000, 40), "thorough": B(300000, 900),
+  "real": ["pkg/drc, pkg/doapprove, pkg/device, pkg/panos, pkg/httpdevice, net/http client down to the RoundTripper"],
+  "stubs": ["TLS/TCP + device: RoundTripper backed by /verif/sim/panosdev (hook H2)"], "assumptions": ["the PAN-OS node represents the XML API semantics (trusted base)"], "min_nontrivial": 50,
+ },
+})
+
 # Properties without a registered check: id -> reason.
 NOT_CLAIMED = {
 }
